@@ -95,6 +95,16 @@ impl VTemp {
     pub fn flush(&mut self) -> (r: IoResult<()>)
         ensures final(self).content() == old(self).content(), final(self).pos() == old(self).pos(),
     { unimplemented!() }
+    /// Seek::stream_position / Seek::rewind (not used by the code today; present so that an edit using them is judged)
+    #[verifier::external_body]
+    pub fn stream_position(&mut self) -> (r: IoResult<u64>)
+        ensures final(self).content() == old(self).content(), final(self).pos() == old(self).pos(),
+            r matches Ok(p) ==> p as int == old(self).pos(),
+    { unimplemented!() }
+    #[verifier::external_body]
+    pub fn rewind(&mut self) -> (r: IoResult<()>)
+        ensures final(self).content() == old(self).content(), r is Ok ==> final(self).pos() == 0,
+    { unimplemented!() }
 }
 /// io::copy(&mut file, &mut dest): Ok => dest got everything from the file's cursor to its end, in order.
 #[verifier::external_body]
